@@ -124,6 +124,7 @@ def execute(prop, nranks, sched, tape, rank_fn, post_fn=None):
     if by:
         results = [x for r, x in enumerate(results) if r not in by]
         w.probe('bystander_ranks_in_world')
+        w.count_fault('bystander-ranks', len(by))
     if w.job_aborted and w.error is None:
         res['status'] = 'aborted'
         return _finish(res, w, results)
